@@ -12,6 +12,7 @@ import (
 	"github.com/inbucket/inbucket/v3/pkg/config"
 	"github.com/inbucket/inbucket/v3/pkg/extension"
 	"github.com/inbucket/inbucket/v3/pkg/storage"
+	"github.com/inbucket/inbucket/v3/pkg/stringutil"
 	"github.com/inbucket/inbucket/v3/pkg/verifhook"
 	"pgregory.net/rapid"
 	"verif/harness/hx"
@@ -27,10 +28,12 @@ type Msg struct {
 
 // Inj is an operation injected while the scan is paused at a yield point.
 type Inj struct {
-	At  int    `json:"at"` // the scan's n-th yield (0-based) over the chosen point family
-	K   string `json:"k"`  // deliver | remove | purge
-	Box int    `json:"box"`
-	N   int    `json:"n"`
+	At   int    `json:"at"` // the scan's n-th yield (0-based) over the chosen point family
+	K    string `json:"k"`  // deliver | remove | purge
+	Box  int    `json:"box"`
+	N    int    `json:"n"`
+	Here bool   `json:"here,omitempty"` // act on the mailbox the scan is looking at
+	Pt   string `json:"pt,omitempty"`   // "" = every yield point counts; "scan" = only the scan's per-mailbox callback
 }
 
 type Case struct {
@@ -68,15 +71,27 @@ var prop = hx.Prop[Case]{
 			Period:  rapid.SampledFrom([]int{180, 600, 3600, 86400, 259200}).Draw(t, "period"),
 			NBoxes:  rapid.IntRange(1, 8).Draw(t, "nboxes"),
 		}
-		n := rapid.IntRange(0, 30).Draw(t, "nmsgs")
-		for i := 0; i < n; i++ {
-			c.Msgs = append(c.Msgs, Msg{Box: rapid.IntRange(0, c.NBoxes-1).Draw(t, "box"),
-				Age: rapid.SampledFrom([]string{"ancient", "expired", "expired", "fresh", "fresh", "future"}).Draw(t, "age")})
+		// each mailbox gets a profile so that wholly expired, wholly fresh and mixed mailboxes all occur
+		for b := 0; b < c.NBoxes; b++ {
+			prof := rapid.SampledFrom([]string{"expired", "expired", "fresh", "mixed", "mixed"}).Draw(t, "profile")
+			n := rapid.IntRange(0, 5).Draw(t, "nmsgs")
+			for i := 0; i < n; i++ {
+				var age string
+				switch prof {
+				case "expired":
+					age = rapid.SampledFrom([]string{"ancient", "expired"}).Draw(t, "age")
+				case "fresh":
+					age = rapid.SampledFrom([]string{"fresh", "future"}).Draw(t, "age")
+				default:
+					age = rapid.SampledFrom([]string{"ancient", "expired", "fresh", "future"}).Draw(t, "age")
+				}
+				c.Msgs = append(c.Msgs, Msg{Box: b, Age: age})
+			}
 		}
 		if rapid.Bool().Draw(t, "concurrent") {
 			c.Inject = rapid.SliceOfN(rapid.Custom(func(t *rapid.T) Inj {
-				return Inj{At: rapid.IntRange(0, 12).Draw(t, "at"), K: rapid.SampledFrom([]string{"deliver", "remove", "purge", "purge"}).Draw(t, "k"),
-					Box: rapid.IntRange(0, c.NBoxes-1).Draw(t, "ibox"), N: rapid.IntRange(0, 12).Draw(t, "n")}
+				return Inj{At: rapid.IntRange(0, 9).Draw(t, "at"), Pt: rapid.SampledFrom([]string{"", "scan", "scan"}).Draw(t, "pt"), K: rapid.SampledFrom([]string{"deliver", "remove", "purge", "purge"}).Draw(t, "k"),
+					Box: rapid.IntRange(0, c.NBoxes-1).Draw(t, "ibox"), N: rapid.IntRange(0, 12).Draw(t, "n"), Here: rapid.Bool().Draw(t, "here")}
 			}), 1, 4).Draw(t, "inject")
 		}
 		return c
@@ -142,20 +157,40 @@ func run(c Case) *hx.Outcome {
 	}
 	o.NonTrivial = mixed && emptied
 	// injected operations at the scan's yield points
-	var yields atomic.Int32
+	var yields, scanYields atomic.Int32
 	injected := 0
 	if len(c.Inject) > 0 {
+		byHash := map[string]string{}
+		for _, nm := range names {
+			byHash[stringutil.HashMailboxName(nm)] = nm
+		}
+		current := ""
 		verifhook.SetYield(func(point string) {
 			if !strings.HasPrefix(point, "retention.scan.mailbox") && !strings.HasPrefix(point, "file.visit.") && !strings.HasPrefix(point, "mem.visit.") {
 				return
 			}
+			// which mailbox the scan is looking at right now
+			if f := strings.Fields(point); len(f) == 2 {
+				if f[0] == "mem.visit.mailbox" {
+					current = f[1]
+				} else if f[0] == "file.visit.mailbox" {
+					current = byHash[f[1]]
+				}
+			}
 			n := int(yields.Add(1)) - 1
+			ns := -1
+			if strings.HasPrefix(point, "retention.scan.mailbox") {
+				ns = int(scanYields.Add(1)) - 1
+			}
 			for _, in := range c.Inject {
-				if in.At != n {
+				if (in.Pt == "" && in.At != n) || (in.Pt == "scan" && in.At != ns) {
 					continue
 				}
 				injected++
 				box := names[in.Box]
+				if in.Here && current != "" {
+					box = current
+				}
 				switch in.K {
 				case "deliver":
 					body := []byte("Subject: during scan\r\n\r\nyoung\r\n")
